@@ -4,6 +4,9 @@ import (
 	"bytes"
 	"encoding/json"
 	"fmt"
+	"go/ast"
+	"go/parser"
+	"go/token"
 	"os"
 	"os/exec"
 	"path/filepath"
@@ -60,6 +63,7 @@ type Prop struct {
 	InitFiles  map[string][]string // dependency package -> files whose init functions are executed
 	GenAST     bool                // run TestVerifDumpAST natively first and compile the tree builders it prints into the harness
 	E2EDir     string              // harness/<dir>/*.go.txt: whole programs; each is also compiled as a twin package (the reference)
+	E2EChunks  bool                // also cut each program into sequences of chunks (vhChunks), each chunk with its own tree
 	Obligs     func(tier string) []Oblig
 	Setup      func(e *sym.Engine)
 	Solver     string // primary solver for this property's obligations
@@ -190,7 +194,44 @@ func newScratch(p *Prop, withTests bool) (*scratch, map[string][]byte, error) {
 			ov[v] = []byte(twin)
 			sc.genPkgs = append(sc.genPkgs, p.PkgPath+"/e2e_"+name)
 		}
-		glue.WriteString(")\n\n// generated by the runner from harness/" + p.E2EDir + "\nvar vhPrograms = map[string]string{\n")
+		glue.WriteString(")\n\n// generated by the runner from harness/" + p.E2EDir + "\n")
+		// vhSources: every text a tree is needed for (whole programs and, for piecewise evaluation, chunks)
+		glue.WriteString("var vhSources = map[string]string{\n")
+		for _, n := range names {
+			fmt.Fprintf(&glue, "\t%q: %s,\n", n, strconv.Quote(texts[n]))
+		}
+		chunkDecl := map[string][][]string{}
+		if p.E2EChunks {
+			for _, n := range names {
+				schemes, err := e2eChunkSchemes(texts[n])
+				if err != nil {
+					return nil, nil, fmt.Errorf("%s: %v", n, err)
+				}
+				schemes = append(schemes, e2eHistory(filepath.Join(verifDir, "harness", p.E2EDir, n+".hist.txt")))
+				chunkDecl[n] = schemes
+				for si, sch := range schemes {
+					for ci, c := range sch {
+						fmt.Fprintf(&glue, "\t%q: %s,\n", fmt.Sprintf("%s#%d#%d", n, si, ci), strconv.Quote(c))
+					}
+				}
+			}
+		}
+		glue.WriteString("}\n\n// vhChunks: for each program, the ways of cutting it into a sequence of Eval calls\nvar vhChunks = map[string][][]string{\n")
+		for _, n := range names {
+			if len(chunkDecl[n]) == 0 {
+				continue
+			}
+			fmt.Fprintf(&glue, "\t%q: {\n", n)
+			for _, sch := range chunkDecl[n] {
+				glue.WriteString("\t\t{")
+				for _, c := range sch {
+					glue.WriteString(strconv.Quote(c) + ", ")
+				}
+				glue.WriteString("},\n")
+			}
+			glue.WriteString("\t},\n")
+		}
+		glue.WriteString("}\n\nvar vhPrograms = map[string]string{\n")
 		for _, n := range names {
 			fmt.Fprintf(&glue, "\t%q: %s,\n", n, strconv.Quote(texts[n]))
 		}
@@ -1127,3 +1168,101 @@ func Bind(h map[string]interface{}) {
 	host.Write = h["Write"].(func(io.Writer))
 	host.Copy = h["Copy"].(func(io.Reader))
 }`
+
+// e2eChunkSchemes cuts a program text into sequences of chunks for successive Eval calls:
+// scheme 0: one chunk per top-level declaration; then, when the body of main is a plain
+// sequence of statements, "the declarations, then each statement of main on its own"
+// (interactive style, no func main); then every cut of the declarations into two chunks.
+// The package clause and the imports go with the first chunk.
+func e2eChunkSchemes(src string) ([][]string, error) {
+	fset := token.NewFileSet()
+	f, err := parser.ParseFile(fset, "p.go", src, 0)
+	if err != nil {
+		return nil, err
+	}
+	off := func(p token.Pos) int { return fset.Position(p).Offset }
+	var decls []string
+	head := ""
+	var mainFn *ast.FuncDecl
+	for k, d := range f.Decls {
+		if k == 0 {
+			head = src[:off(d.Pos())]
+		}
+		decls = append(decls, src[off(d.Pos()):off(d.End())])
+		if fd, ok := d.(*ast.FuncDecl); ok && fd.Recv == nil && fd.Name.Name == "main" {
+			mainFn = fd
+		}
+	}
+	if len(decls) < 2 {
+		return nil, nil
+	}
+	var schemes [][]string
+	one := []string{}
+	for k, d := range decls {
+		if k == 0 {
+			d = head + d
+		}
+		one = append(one, d)
+	}
+	schemes = append(schemes, one)
+	// the statements of main as loose statements
+	if mainFn != nil && mainFn.Body != nil && len(mainFn.Body.List) > 1 {
+		plain := true
+		for _, st := range mainFn.Body.List {
+			switch st.(type) {
+			case *ast.DeferStmt, *ast.ReturnStmt, *ast.LabeledStmt, *ast.BranchStmt, *ast.GoStmt:
+				plain = false
+			}
+		}
+		ast.Inspect(mainFn.Body, func(n ast.Node) bool {
+			switch x := n.(type) {
+			case *ast.FuncLit:
+				return false
+			case *ast.ReturnStmt:
+				plain = false
+			case *ast.BranchStmt:
+				if x.Tok == token.GOTO {
+					plain = false
+				}
+			}
+			return true
+		})
+		if plain {
+			var rest []string
+			for _, d := range f.Decls {
+				if d != ast.Decl(mainFn) {
+					rest = append(rest, src[off(d.Pos()):off(d.End())])
+				}
+			}
+			sch := []string{head + strings.Join(rest, "\n\n")}
+			for _, st := range mainFn.Body.List {
+				sch = append(sch, src[off(st.Pos()):off(st.End())])
+			}
+			schemes = append(schemes, sch)
+		} else {
+			schemes = append(schemes, nil)
+		}
+	} else {
+		schemes = append(schemes, nil)
+	}
+	for k := 1; k < len(decls); k++ {
+		schemes = append(schemes, []string{head + strings.Join(decls[:k], "\n\n"), strings.Join(decls[k:], "\n\n")})
+	}
+	return schemes, nil
+}
+
+// e2eHistory reads a hand-written sequence of Eval inputs (separated by lines "//---") which is
+// claimed equivalent to the program of the same name: an interactive session with redefinitions.
+func e2eHistory(path string) []string {
+	b, err := os.ReadFile(path)
+	if err != nil {
+		return nil
+	}
+	var out []string
+	for _, c := range strings.Split(string(b), "\n//---\n") {
+		if strings.TrimSpace(c) != "" {
+			out = append(out, c)
+		}
+	}
+	return out
+}
